@@ -169,6 +169,9 @@ pub fn gaussian_noise_multiplier(epsilon: f64, delta: f64) -> f64 {
 pub fn gaussian_tau(epsilon: f64, delta: f64, max_privacy_unit_groups: f64) -> f64 {
     let dist = Normal::new(0.0, 1.0).unwrap();
     let scale = gaussian_noise(epsilon, delta, max_privacy_unit_groups.sqrt());
-    // TODO: we want to overestimate tau
-    1. + scale * dist.inverse_cdf((1. - delta).powf(1. / max_privacy_unit_groups))
+    // Upper tail probability 1 - (1 - delta)^(1 / max_privacy_unit_groups), computed without
+    // cancellation: `(1. - delta).powf(..)` rounds to the nearest double below 1 and yields a tau
+    // smaller than required (or infinite) when delta is small
+    let upper_tail = -((-delta).ln_1p() / max_privacy_unit_groups).exp_m1();
+    1. - scale * dist.inverse_cdf(upper_tail)
 }
